@@ -715,6 +715,61 @@ theorem reject_canon_missing (p : Primary) (hp : p.wf = true ∧ p.crc.wire = tr
   simp only [List.cons_append, List.nil_append]
   exact ⟨e, reject_of_canon_err p hp _ (by rw [UInt8.toNat_ofNat']; omega) _ e _ this⟩
 
+/-! ### block-type-specific data of the known extension blocks -/
+
+theorem fromSlice_err {α} (rd : P α) (raw : Bytes) (e : Err) (s' : St)
+    (h : rd ⟨raw, 128⟩ = (.err e, s')) : fromSlice rd raw = .err e := by
+  simp [fromSlice, h]
+
+/-- **C19 (extension-block data that is not the item its block type requires — by kind).** The data
+    of a bundle age block must be an unsigned integer, that of a hop count block and of a previous
+    node block an array: data that is empty or begins with a byte of any other major type (tags
+    excepted) does not decode, whatever follows. -/
+theorem decodeBtsd_wrong_major (bt : Nat) (hbt : bt = 6 ∨ bt = 7 ∨ bt = 10) (raw : Bytes)
+    (hraw : raw = [] ∨ ∃ b rest, raw = b :: rest ∧ b.toNat / 32 ≠ 6 ∧
+      b.toNat / 32 ≠ (if bt = 7 then 0 else 4)) :
+    ∃ e, decodeBtsd bt raw = .err e := by
+  have hne : ∀ {α} (rd : P α), (∃ e s', rd ⟨raw, 128⟩ = (.err e, s')) → ∃ e, fromSlice rd raw = .err e :=
+    fun rd ⟨e, s', h⟩ => ⟨e, fromSlice_err rd raw e s' h⟩
+  rcases hraw with rfl | ⟨b, rest, rfl, h6, hm⟩
+  · rcases hbt with rfl | rfl | rfl <;>
+      simp [decodeBtsd, PAYLOAD_BLOCK, BUNDLE_AGE_BLOCK, HOP_COUNT_BLOCK, PREVIOUS_NODE_BLOCK, fromSlice, readU64, readEid,
+        readSeq, tagFuel, parseWith, readHead, Res.map]
+  · rcases hbt with rfl | rfl | rfl
+    · obtain ⟨e, he⟩ := hne readEid (readEid_wrong_major b rest 128 (by omega) (by simpa using hm) h6)
+      exact ⟨e, by simp [decodeBtsd, PAYLOAD_BLOCK, BUNDLE_AGE_BLOCK, HOP_COUNT_BLOCK, PREVIOUS_NODE_BLOCK, he, Res.map]⟩
+    · obtain ⟨e, he⟩ := hne readU64 (readUint_wrong_major b rest 128 (by omega) (by simpa using hm) h6).1
+      exact ⟨e, by simp [decodeBtsd, PAYLOAD_BLOCK, BUNDLE_AGE_BLOCK, he, Res.map]⟩
+    · obtain ⟨e, he⟩ := hne (readSeq visitPairU8)
+        (readSeq_wrong_major visitPairU8 (fun acc => (good_visitPairU8 acc).safe) b rest 128 (by omega) (by simpa using hm) h6)
+      exact ⟨e, by simp [decodeBtsd, PAYLOAD_BLOCK, BUNDLE_AGE_BLOCK, HOP_COUNT_BLOCK, he, Res.map]⟩
+
+/-- a canonical block whose data does not decode under its block type fails the block visitor -/
+theorem visitCanon_bad_data (bt num fl t : Nat) (hbt : bt < 18446744073709551616) (hn : num < 18446744073709551616)
+    (hf : fl < 256) (ht : t < 256) (raw : Bytes) (hl : raw.length < 18446744073709551616) (e : Err)
+    (hd : decodeBtsd bt raw = .err e) (n : Nat) (tail : Bytes) :
+    visitCanon (some (n + 5)) ⟨encUint bt ++ (encUint num ++ (encUint fl ++ (encUint t ++ (encBytes raw ++ tail)))), 126⟩
+      = (.err .other, ⟨tail, 126⟩) := by
+  simp [visitCanon, bind_apply, reqElem_succ, readU64_enc bt hbt, readU64_enc num hn, readU8_enc fl hf, readU8_enc t ht,
+    readByteBuf_enc raw hl, hd, liftRes]
+
+/-- **C19 (bad extension-block data, at bundle level).** After a conformant primary block, a block
+    of type 6, 7 or 10 whose data is empty or of the wrong kind: the bundle is rejected. -/
+theorem reject_canon_btsd_kind (p : Primary) (hp : p.wf = true ∧ p.crc.wire = true)
+    (bt : Nat) (hbt : bt = 6 ∨ bt = 7 ∨ bt = 10) (num fl t : Nat) (hn : num < 18446744073709551616)
+    (hf : fl < 256) (ht : t < 256) (raw : Bytes) (hl : raw.length < 18446744073709551616)
+    (hraw : raw = [] ∨ ∃ b rest, raw = b :: rest ∧ b.toNat / 32 ≠ 6 ∧ b.toNat / 32 ≠ (if bt = 7 then 0 else 4))
+    (count : Nat) (hc : count < 24) (hc5 : 5 ≤ count) (tail : Bytes) :
+    ∃ e, decodeBundle ([0x9f] ++ (encPrimary p ++ (encArrayHead count ++
+      (encUint bt ++ (encUint num ++ (encUint fl ++ (encUint t ++ (encBytes raw ++ tail)))))))) = .err e := by
+  obtain ⟨e, hd⟩ := decodeBtsd_wrong_major bt hbt raw hraw
+  obtain ⟨n, rfl⟩ : ∃ n, count = n + 5 := ⟨count - 5, by omega⟩
+  have hv := visitCanon_bad_data bt num fl t (by rcases hbt with rfl | rfl | rfl <;> omega) hn hf ht raw hl e hd n tail
+  have := readCanon_of_visit_err (n + 5) hc _ .other ⟨tail, 126⟩ hv
+  rw [encArrayHead_small _ hc]
+  simp only [List.cons_append, List.nil_append]
+  exact ⟨.other, reject_of_canon_err p hp _ (by rw [UInt8.toNat_ofNat']; omega) _ .other _ this⟩
+
 /-! ### the hypotheses are satisfiable, and the faults are real faults -/
 
 /-- a conformant primary block: version 7, fragment, CRC-16, dtn destination, ipn source -/
